@@ -31,10 +31,10 @@ func (f *failT) group(flow string) string {
 }
 
 type e2eResult struct {
-	Fail    *failT   `json:"fail,omitempty"`
-	Shapes  []string `json:"shapes"` // request lines seen on the wire, original URL abstracted to U
-	Steps   int      `json:"steps"`  // handler callbacks checked
-	Callbks []string `json:"callbacks,omitempty"`
+	Fail   *failT   `json:"fail,omitempty"`
+	Shapes []string `json:"shapes"` // request lines seen on the wire, original URL abstracted to U
+	Steps  int      `json:"steps"`  // handler callbacks checked
+	Lines  int      `json:"lines"`  // request lines checked for user-info
 }
 
 var kebabRe = regexp.MustCompile(`([a-z0-9])([A-Z])`)
@@ -117,8 +117,21 @@ func runE2E(c e2eCase) (res e2eResult) {
 		}
 	}()
 
+	noUser := spec.URLNoUser()
+	// requestLines returns the request lines the client has written so far (original URL abstracted to U)
+	requestLines := func() (lines [][]string, shapes []string) {
+		wmu.Lock()
+		wire := string(c2s)
+		wmu.Unlock()
+		lines = reqLineRe.FindAllStringSubmatch(wire, -1)
+		for _, l := range lines {
+			shapes = append(shapes, l[1]+" "+strings.Replace(l[2], noUser, "U", 1))
+		}
+		return lines, shapes
+	}
 	fail := func(step, kind, f string, a ...any) e2eResult {
-		res.Fail = &failT{Step: step, Kind: kind, Msg: fmt.Sprintf(f, a...)}
+		_, res.Shapes = requestLines()
+		res.Fail = &failT{Step: step, Kind: kind, Msg: fmt.Sprintf(f, a...) + fmt.Sprintf(" [request lines: %s]", strings.Join(res.Shapes, " | "))}
 		return res
 	}
 
@@ -282,16 +295,13 @@ func runE2E(c e2eCase) (res e2eResult) {
 	}
 
 	// wire: request lines
-	wmu.Lock()
-	wire := string(c2s)
-	wmu.Unlock()
-	lines := reqLineRe.FindAllStringSubmatch(wire, -1)
-	noUser := spec.URLNoUser()
+	lines, shapes := requestLines()
+	res.Shapes = shapes
 	methods := map[string]int{}
 	for _, l := range lines {
 		method, ru := l[1], l[2]
 		methods[method]++
-		res.Shapes = append(res.Shapes, method+" "+strings.Replace(ru, noUser, "U", 1))
+		res.Lines++
 		rest, ok := strings.CutPrefix(ru, "rtsp://")
 		if !ok {
 			return fail("wire", "request-line-not-rtsp-url", "request line %q", l[0])
